@@ -3,7 +3,17 @@
 set -u
 cd "$(dirname "$0")"
 export CARGO_NET_OFFLINE=true
-mkdir -p .cache evidence replays
-# warm the Kani target dir (3-4 min cold) by running the cheapest harness
-./check C12 --tier quick >/dev/null 2>&1 || true
+mkdir -p .cache/logs evidence replays
+clang -shared -fPIC -O1 -o .cache/libverifclock.so lib/native/clockshim.c -ldl || true
+# three independent warm-ups in parallel: Kani target dir, MIR dump (nightly), native replay test build
+( ./check C12 --tier quick > .cache/logs/setup-kani.log 2>&1 ) &
+( python3-vt lib/mirsym/mirdump.py > .cache/logs/setup-mir.log 2>&1 ) &
+( python3-vt - > .cache/logs/setup-replay.log 2>&1 <<'PY'
+import sys
+sys.path.insert(0, "lib")
+import kanicheck
+print(kanicheck.native_driver("security", "analyze", {"__params": {}})[0])
+PY
+) &
+wait
 exit 0
